@@ -953,3 +953,138 @@ def _sm_correct(ctx, em, ci):
 
 class _CacheBroken(Exception):
     pass
+
+
+# ----------------------------------------------------------------------- SM-TABLE
+def _npred(e, env, texts):
+    """numeric predicate evaluator (own semantics) for enabling conditions of table columns"""
+    import math
+    t = norm_text(e)
+    if t in texts:
+        return texts[t]
+    if isinstance(e, ast.Constant) and isinstance(e.value, (int, float, bool)):
+        return e.value
+    if isinstance(e, ast.Name):
+        if e.id in env:
+            return env[e.id]
+        raise _Undecided(e.id)
+    if isinstance(e, ast.UnaryOp):
+        v = _npred(e.operand, env, texts)
+        if isinstance(e.op, ast.Not):
+            return not v
+        if isinstance(e.op, ast.USub):
+            return -v
+    if isinstance(e, ast.BoolOp):
+        vals = [_npred(x, env, texts) for x in e.values]
+        return all(vals) if isinstance(e.op, ast.And) else any(vals)
+    if isinstance(e, ast.BinOp):
+        a, b = _npred(e.left, env, texts), _npred(e.right, env, texts)
+        ops = {ast.Add: lambda: a + b, ast.Sub: lambda: a - b, ast.Mult: lambda: a * b,
+               ast.Div: lambda: a / b}
+        if type(e.op) in ops:
+            return ops[type(e.op)]()
+    if isinstance(e, ast.Compare) and len(e.ops) == 1:
+        a, b = _npred(e.left, env, texts), _npred(e.comparators[0], env, texts)
+        table = {ast.Eq: a == b, ast.NotEq: a != b, ast.Gt: a > b, ast.GtE: a >= b,
+                 ast.Lt: a < b, ast.LtE: a <= b}
+        if type(e.ops[0]) in table:
+            return table[type(e.ops[0])]
+    if isinstance(e, ast.Call):
+        fn = norm_text(e.func)
+        args = [_npred(x, env, texts) for x in e.args]
+        kw = {k.arg: _npred(k.value, env, texts) for k in e.keywords}
+        if fn in ('abs', 'np.abs', 'np.fabs', 'math.fabs', 'numpy.abs') and len(args) == 1:
+            return abs(args[0])
+        if fn in ('np.isclose', 'numpy.isclose', 'np.allclose', 'numpy.allclose') and \
+                len(args) >= 2:
+            rtol = kw.get('rtol', args[2] if len(args) > 2 else 1e-5)
+            atol = kw.get('atol', args[3] if len(args) > 3 else 1e-8)
+            return abs(args[0] - args[1]) <= atol + rtol * abs(args[1])
+        if fn == 'math.isclose' and len(args) >= 2:
+            rel = kw.get('rel_tol', 1e-9)
+            ab = kw.get('abs_tol', 0.0)
+            return abs(args[0] - args[1]) <= max(rel * max(abs(args[0]), abs(args[1])), ab)
+        if fn in ('bool', 'float') and len(args) == 1:
+            return args[0]
+    raise _Undecided(t[:40])
+
+
+def sm_table(ctx):
+    ctx.rule('SM-TABLE', 'Parameters.apply writes the parameter-table column of a term exactly when '
+             'the parameter differs from its nominal value (bias or walk non-zero; transform '
+             'entry != 1 on / 0 off the diagonal): the table is then named like the estimator '
+             'whose enabled terms generated the parameters, however small they are')
+    pm = ctx.repo.klass('inertial_sensor.Parameters')
+    ap = pm.methods['apply']
+    ctx.touch(ap)
+    n = 0
+    deltas = [0.0, 1e-12, -3e-9, 2e-6, -1e-3, 0.05]
+    for st in ast.walk(ap.node):
+        if not isinstance(st, ast.If):
+            continue
+        cols = [s2 for s2 in st.body if isinstance(s2, ast.Assign) and
+                isinstance(s2.targets[0], ast.Subscript) and
+                isinstance(s2.targets[0].slice, ast.JoinedStr) and
+                'data_frame' in norm_text(s2.targets[0].value)]
+        if not cols:
+            continue
+        tpl = ''.join(v.value for v in cols[0].targets[0].slice.values
+                      if isinstance(v, ast.Constant))
+        kind = 'bias' if tpl.startswith('bias') else 'sm'
+        # local definitions in the enclosing block (nominal / actual)
+        defs = {}
+        from ..flow import path_to
+        pth = path_to(ap.node.body, st) or []
+        for blk, i in pth:
+            for s2 in blk[:i]:
+                if isinstance(s2, ast.Assign) and len(s2.targets) == 1 and \
+                        isinstance(s2.targets[0], ast.Name):
+                    defs[s2.targets[0].id] = s2.value
+        bad = None
+        try:
+            if kind == 'sm':
+                for nominal in (0, 1):
+                    for d in deltas:
+                        env, texts = {}, {}
+                        for nm, v in defs.items():
+                            tv = norm_text(v)
+                            if 'transform[' in tv:
+                                env[nm] = nominal + d
+                            elif isinstance(v, ast.IfExp):
+                                env[nm] = nominal
+                        for x in ast.walk(st.test):
+                            tx = norm_text(x)
+                            if isinstance(x, ast.Subscript) and 'transform' in tx:
+                                texts[tx] = nominal + d
+                            if isinstance(x, ast.IfExp):
+                                texts[tx] = nominal
+                        got = bool(_npred(st.test, env, texts))
+                        if got != (d != 0):
+                            bad = ('transform entry %r (nominal %d)' % (nominal + d, nominal), got)
+                            break
+                    if bad:
+                        break
+            else:
+                for b_, w_ in ((0.0, 0.0), (1e-12, 0.0), (0.0, 3e-10), (-2e-9, 1e-9), (0.1, 0.0)):
+                    texts = {}
+                    for x in ast.walk(st.test):
+                        tx = norm_text(x)
+                        if isinstance(x, ast.Subscript) and tx.startswith('self.bias_walk['):
+                            texts[tx] = w_
+                        elif isinstance(x, ast.Subscript) and tx.startswith('self.bias['):
+                            texts[tx] = b_
+                    got = bool(_npred(st.test, {}, texts))
+                    if got != (b_ != 0 or w_ != 0):
+                        bad = ('bias %r, bias walk %r' % (b_, w_), got)
+                        break
+        except _Undecided as e:
+            raise AnalysisError('Parameters.apply: column condition `%s` not evaluable (%s)'
+                                % (norm_text(st.test)[:60], e))
+        n += 1
+        ctx.ob('SM-TABLE', bad is None, None, "column '%s…' is written iff `%s`"
+               % (tpl, norm_text(st.test)[:60]), f=ap, node=st, key='col-' + kind,
+               why="the '%s…' column is %s for %s (`%s`): the parameter is applied to the readings "
+                   "but the table no longer names it, so it does not match the estimator's state "
+                   "list" % (tpl, 'written' if bad and bad[1] else 'not written',
+                             bad[0] if bad else '', norm_text(st.test)[:60]))
+    ctx.floor('SM-TABLE', n, 2, 'parameter-table column conditions')
